@@ -15,6 +15,9 @@ def run(repo, report, tier):
     report.rule("C10.R3", "both pipelines apply modifiers then steps sequentially, each fed the previous result; the paired wrapper routes modifier i to read i",
                 "a step would not see exactly the output of the previous one")
     report.guard("C10.R3", "pipelines", r3_sequential, repo, report)
+    report.rule("C10.R5", "the renaming placeholders that record what earlier modifiers did ({cut_prefix}, {cut_suffix}, {adapter_name}, {match_sequence}) are filled by the same function of the modification info in the single-end and in the paired-end renamer",
+                "a paired-end header shows another (or no) removed piece than the single-end header for the same read")
+    report.guard("C10.R5", "renamers", r4_placeholders, repo, report)
 
 
 def r3_sequential(repo, report):
@@ -42,3 +45,67 @@ def r3_sequential(repo, report):
     appends = [n for n in ast.walk(f2) if isinstance(n, ast.Call) and chain(n.func) == "self._modifiers.append"]
     report.ob("C10.R3", "PairedEndPipeline._add_modifiers", ok and ok2 and len(appends) == 1, facts={"iterates": src(loops[0].iter) if loops else None, "wrapper_args": [src(a) for a in calls[0].args] if calls else None},
               expected="for modifier in modifiers (in order): tuples become PairedEndModifierWrapper(modifier1, modifier2), appended", loc=repo.loc(fn))
+
+
+def r4_placeholders(repo, report):
+    import ast as _ast
+
+    from .. import constfold
+    from ..absint import Obj, explore, vkey
+    from ..repo import chain, params, src, strip_docstring
+
+    c, comp = repo.need_method("Renamer", "compile_rename_function")
+    tables = [n for n in _ast.walk(comp) if isinstance(n, _ast.Assign) and isinstance(n.value, _ast.Dict) and len(n.value.keys) >= 4]
+    if len(tables) != 1:
+        raise Unrecognised("Renamer.compile_rename_function: placeholder code table not found", repo.loc(comp))
+    code = constfold.fold(tables[0].value)
+    c2, ren = repo.need_method("PairedEndRenamer", "_rename")
+    loops = [n for n in _ast.walk(ren) if isinstance(n, _ast.For) and isinstance(n.target, _ast.Tuple) and any(isinstance(x, _ast.Call) and chain(x.func) == "dict" for x in _ast.walk(n))]
+    if len(loops) != 1:
+        raise Unrecognised("PairedEndRenamer._rename: per-read loop building the placeholder values not found", repo.loc(ren))
+    lp = loops[0]
+    names = [e.id for e in lp.target.elts if isinstance(e, _ast.Name)]
+    # which loop variable is the modification info: the one whose .matches / .cut_prefix are read
+    infov = [nm for nm in names if any(isinstance(x, _ast.Attribute) and isinstance(x.value, _ast.Name) and x.value.id == nm and x.attr in ("matches", "cut_prefix", "cut_suffix") for x in _ast.walk(lp))]
+    if len(infov) != 1:
+        raise Unrecognised("PairedEndRenamer._rename: info variable of the loop not identified", repo.loc(lp))
+    captured = []
+
+    def hook(ex, node, env):
+        if chain(node.func) == "dict" and node.keywords and not node.args:
+            captured.append((dict(ex.val), {k.arg: vkey(ex.ev(k.value, env)) for k in node.keywords if k.arg}))
+            return Obj("VALUES", nonnull=True)
+        return None
+
+    env = {nm: Obj(nm.upper(), nonnull=True) for nm in names}
+    env[infov[0]] = Obj("INFO", nonnull=True)
+    env["self"] = Obj("self", nonnull=True)
+    prow = explore(repo, lp.body, env, call_hook=hook, inline=False, loop_mode="forbid")
+    paired = []
+    for r in prow:
+        # the values captured on this completed path: the last capture made under a valuation contained in the row's
+        cands = [kv for v, kv in captured if all(r.valuation.get(k) == x for k, x in v.items())]
+        if cands:
+            paired.append((r.valuation, cands[-1]))
+    bad = []
+    n = 0
+    for key in ("cut_prefix", "cut_suffix", "adapter_name", "match_sequence"):
+        if key not in code or not all(key in kv for _, kv in paired):
+            bad.append((key, "placeholder missing in one of the renamers"))
+            continue
+        expr = _ast.parse(code[key], mode="eval").body
+        from ..normalise import Normaliser
+
+        expr = Normaliser().visit(expr)
+        _ast.fix_missing_locations(expr)
+        srow = explore(repo, [_ast.Return(value=expr)], {"info": Obj("INFO", nonnull=True), "self": Obj("self", nonnull=True)}, inline=False)
+        for val, kv in paired:
+            for sr in srow:
+                if all(val.get(k, x) == x for k, x in sr.valuation.items()):
+                    n += 1
+                    want = vkey(sr.exit[1])
+                    if kv[key] != want:
+                        bad.append((key, {"paired": kv[key], "single": want, "when": {k: v for k, v in sr.valuation.items()}}))
+    report.ob("C10.R5", "PairedEndRenamer fills the info placeholders like Renamer", not bad and n >= 8, facts={"compared": n, "problems": [str(b)[:260] for b in bad[:3]]},
+              expected="cut_prefix / cut_suffix: the recorded piece or ''; adapter_name: name of the last match or 'no_adapter'; match_sequence: of the last match or ''", loc=repo.loc(lp), cases=n,
+              why=str(bad[0])[:220] if bad else "")
